@@ -267,6 +267,37 @@ Theorem dup_keeps_result_fields_partial r : (forall x, r = Some x -> rt_ctype x 
 Proof. exact (dup_rt_id r). Qed.
 Print Assumptions dup_keeps_result_fields_partial.
 
+(* ---- the Required slice: the node where goa's own mutators write in place ----
+   Go slices are modelled as (array, len, cap) over a store of arrays; AddRequired appends
+   in place when there is spare capacity, RemoveRequired always shifts the cells of the
+   array it was given. so: the original's slice, allocated before the copy (g_arr so <
+   next0); A0: any store. *)
+
+(* the copy reads the same names *)
+Theorem required_dup_equal A0 next0 so :
+  let (st, c) := required_dup (SS A0 next0) so in sread (ss_arrays st) c = sread A0 so.
+Proof. exact (required_dup_reads A0 next0 so). Qed.
+Print Assumptions required_dup_equal.
+
+(* after ANY sequence of AddRequired / RemoveRequired calls on the copy, of any length,
+   the original's Required reads exactly what it read before: the copy owns its array,
+   and every array it moves to later is fresh *)
+Theorem required_dup_independent A0 next0 so ops :
+  g_arr so < next0 ->
+  let (st1, c) := required_dup (SS A0 next0) so in
+  let (st2, c') := run_rops ops st1 c in
+  sread (ss_arrays st2) so = sread A0 so.
+Proof. intro H. exact (required_independent A0 next0 so H ops). Qed.
+Print Assumptions required_dup_independent.
+
+(* the copy of the array is what makes this true: a second slice header over the same
+   array (what a struct copy of the ValidationExpr gives) lets RemoveRequired change what
+   the original reads. goa does copy (ValidationExpr.Dup); this is not a finding. *)
+Theorem required_independence_needs_the_copy :
+  exists A s x, let (st, _) := remove_required (SS A 1) s x in sread (ss_arrays st) s <> sread A s.
+Proof. exact required_alias_leaks. Qed.
+Print Assumptions required_independence_needs_the_copy.
+
 (* ---- non-vacuity ---- *)
 
 (* the hypotheses of hash_terminates hold for a mutually recursive pair T1 = {a: T2},
@@ -314,3 +345,16 @@ Example equal_twins_example :
             (1, UT [66%N] [] ai_none (TObj 1 [F [110%N] ai_none (TUser 0)]) None)] in
   Equal 8 E (TUser 0) E (TUser 1) = Some true.
 Proof. vm_compute. reflexivity. Qed.
+
+(* Required = [a; b; c] with capacity 4: on the copy, remove a, add d, add e (moves to a
+   new array): the copy reads [b; c; d; e], the original still [a; b; c]; the same calls
+   through an alias leave the original reading [b; c; d] *)
+Example required_example :
+  let A0 : arrays := [(0, [[97%N]; [98%N]; [99%N]; []])] in
+  let so := GS 0 3 4 in
+  let ops := [RRemove [97%N]; RAdd [100%N]; RAdd [101%N]] in
+  (let (st1, c) := required_dup (SS A0 1) so in
+   let (st2, c') := run_rops ops st1 c in
+   (sread (ss_arrays st2) so, sread (ss_arrays st2) c')) = ([[97%N]; [98%N]; [99%N]], [[98%N]; [99%N]; [100%N]; [101%N]])
+  /\ (let (st3, a') := run_rops ops (SS A0 1) so in sread (ss_arrays st3) so) = [[98%N]; [99%N]; [100%N]].
+Proof. vm_compute. split; reflexivity. Qed.
